@@ -147,6 +147,26 @@ impl C06 {
             return;
         }
         let letters = b"ACGTNacgtn";
+        // the interval of the empty string extended backwards by a symbol is that symbol's interval
+        for &a in letters {
+            let r = guard(|| (fmd.backward_ext(&fmd.init_interval(), a), fmd.init_interval_with(a)));
+            ctx.eval(1);
+            match r {
+                Err(p) => ctx.violation(&format!("ext:panic:{}", panic_site(&p)), Obj::new().b("text", &text).s("what", &format!("init_interval + backward_ext('{}'): {}", a as char, p)).done()),
+                Ok((e, w)) => {
+                    let cnt = occurrences(&text, &[a]).len();
+                    let (se, sw) = (e.forward().upper - e.forward().lower, w.forward().upper - w.forward().lower);
+                    if se != cnt || sw != cnt || (cnt > 0 && (e.forward() != w.forward() || e.revcomp() != w.revcomp())) {
+                        ctx.violation(
+                            "ext:init-interval-inconsistent",
+                            Obj::new().b("text", &text).s("what", &format!("symbol '{}' occurs {} times; backward_ext(init_interval()) = {:?}, init_interval_with = {:?}", a as char, cnt, e, w)).done(),
+                        );
+                    } else if cnt > 0 {
+                        check_bi(ctx, &w, &[a], "init_interval_with", &[a]);
+                    }
+                }
+            }
+        }
         for _ in 0..ctx.by_tier(2, 4, 8) {
             let st = *rng.pick(&body_pos);
             let mut en = st + 1;
